@@ -10,6 +10,7 @@ the operations inside the requested area.
 -/
 import BqVerif.Model.CircSim
 import Mathlib.Data.List.Nodup
+import Mathlib.Data.List.Sort
 
 namespace BqVerif.CircSim
 open BqVerif.Tensor
@@ -144,5 +145,431 @@ theorem iterate_default (c : Circ P α) (a : ItArgs)
     (hex : a.exclude = false) (hrev : a.reverse = false) :
     c.iterate a = .ok (some c.ops) := by
   simp [Circ.iterate, hstart, hstop, hmode, hex, hrev]
+
+/-! ### (B) what `specIter` contains -/
+
+theorem cell_some_some {c : Circ P α} {cy q : Nat} {op : GOp P α}
+    (h : c.cell cy q = some (some op)) :
+    (cy, op) ∈ c.ops ∧ q ∈ op.loc ∧ cy < c.numCycles ∧ q < c.radixes.length := by
+  unfold Circ.cell at h
+  split at h
+  · rename_i hr
+    simp only [Option.some.injEq, Option.map_eq_some_iff] at h
+    obtain ⟨e, he, rfl⟩ := h
+    have h1 := List.find?_some he
+    have h2 := List.mem_of_find?_eq_some he
+    simp only [Bool.and_eq_true, beq_iff_eq, List.contains_iff_mem, decide_eq_true_eq] at h1 hr
+    obtain ⟨h1a, h1b⟩ := h1
+    subst h1a
+    exact ⟨h2, h1b, hr.1, hr.2⟩
+  · cases h
+
+theorem cell_some_none {c : Circ P α} {cy q : Nat} (h : c.cell cy q = some none) :
+    ∀ e ∈ c.ops, e.1 = cy → q ∉ e.2.loc := by
+  unfold Circ.cell at h
+  split at h
+  · simp only [Option.some.injEq, Option.map_eq_none_iff] at h
+    intro e he h1 h2
+    have := List.find?_eq_none.1 h e he
+    simp [h1, h2] at this
+  · cases h
+
+theorem cell_none {c : Circ P α} {cy q : Nat} (h : c.cell cy q = none) :
+    ¬ (cy < c.numCycles ∧ q < c.radixes.length) := by
+  unfold Circ.cell at h
+  split at h
+  · cases h
+  · rename_i hr
+    simpa using hr
+
+theorem pairwise_mem_or {β : Type} {R : β → β → Prop} {l : List β} (h : l.Pairwise R) :
+    ∀ x ∈ l, ∀ y ∈ l, x = y ∨ R x y ∨ R y x := by
+  induction h with
+  | nil => intro x hx; cases hx
+  | cons hhd _ ih =>
+    intro x hx y hy
+    rcases List.mem_cons.1 hx with rfl | hx' <;> rcases List.mem_cons.1 hy with rfl | hy'
+    · exact .inl rfl
+    · exact .inr (.inl (hhd _ hy'))
+    · exact .inr (.inr (hhd _ hx'))
+    · exact ih x hx' y hy'
+
+/-- Two different operations of the same cycle are disjoint. -/
+theorem Circ.WF.disjoint {c : Circ P α} (hwf : c.WF) {cy : Nat} {op op' : GOp P α}
+    (h1 : (cy, op) ∈ c.ops) (h2 : (cy, op') ∈ c.ops) (hne : op ≠ op') :
+    ∀ q, q ∈ op.loc → q ∉ op'.loc := by
+  intro q hq hq'
+  rcases pairwise_mem_or hwf.2 _ h1 _ h2 with h | h | h
+  · exact hne (by cases h; rfl)
+  · exact h rfl q hq hq'
+  · exact h rfl q hq' hq
+
+theorem mem_cycleScan_imp {c : Circ P α} {cfg : ItCfg} {cy : Nat} {e : Nat × GOp P α} :
+    ∀ (qs skip : List Nat), e ∈ cycleScan c cfg cy qs skip →
+      e.1 = cy ∧ e ∈ c.ops ∧ (∃ q ∈ qs, q ∈ e.2.loc ∧ q ∉ skip ∧ eligible cfg cy q = true) ∧
+        (cfg.exclude = true → insideAll cfg cy e.2 = true) := by
+  intro qs
+  induction qs with
+  | nil => intro skip h; simp [cycleScan] at h
+  | cons q qs ih =>
+    intro skip h
+    have lift : ∀ skip', (∀ x, x ∉ skip' → x ∉ skip) → e ∈ cycleScan c cfg cy qs skip' →
+        e.1 = cy ∧ e ∈ c.ops ∧ (∃ q' ∈ q :: qs, q' ∈ e.2.loc ∧ q' ∉ skip ∧
+          eligible cfg cy q' = true) ∧ (cfg.exclude = true → insideAll cfg cy e.2 = true) := by
+      intro skip' hs h'
+      obtain ⟨a, b, ⟨q', hq', h3, h4, h5⟩, d⟩ := ih skip' h'
+      exact ⟨a, b, ⟨q', List.mem_cons_of_mem _ hq', h3, hs _ h4, h5⟩, d⟩
+    rw [cycleScan] at h
+    split at h
+    · exact lift skip (fun _ hx => hx) h
+    · rename_i hcond
+      simp only [Bool.or_eq_true, List.contains_iff_mem, Bool.not_eq_true', not_or,
+        Bool.not_eq_false] at hcond
+      split at h
+      · rename_i op hcell
+        rcases List.mem_append.1 h with h | h
+        · split at h
+          · rename_i hex
+            simp only [List.mem_singleton] at h
+            subst h
+            obtain ⟨m1, m2, _, _⟩ := cell_some_some hcell
+            refine ⟨rfl, m1, ⟨q, List.mem_cons_self, m2, hcond.1, hcond.2⟩, ?_⟩
+            intro hx
+            simpa [hx] using hex
+          · cases h
+        · exact lift _ (fun x hx hx' => hx (List.mem_append_right _ hx')) h
+      · exact lift _ (fun x hx hx' => hx (List.mem_cons_of_mem _ hx')) h
+      · exact lift _ (fun x hx hx' => hx (List.mem_cons_of_mem _ hx')) h
+
+theorem mem_cycleScan_of {c : Circ P α} (hwf : c.WF) {cfg : ItCfg} {cy : Nat} {op : GOp P α}
+    (hop : (cy, op) ∈ c.ops) (hex : cfg.exclude = true → insideAll cfg cy op = true) :
+    ∀ (qs skip : List Nat), (∃ q ∈ qs, q ∈ op.loc ∧ eligible cfg cy q = true) →
+      (∀ x ∈ op.loc, x ∉ skip) → (cy, op) ∈ cycleScan c cfg cy qs skip := by
+  intro qs
+  induction qs with
+  | nil => rintro skip ⟨q, hq, _⟩; cases hq
+  | cons q0 qs ih =>
+    rintro skip ⟨q, hq, hql, hqe⟩ hskip
+    rw [cycleScan]
+    have tail : q ≠ q0 → ∃ q ∈ qs, q ∈ op.loc ∧ eligible cfg cy q = true := by
+      intro hne
+      rcases List.mem_cons.1 hq with h | h
+      · exact absurd h hne
+      · exact ⟨q, h, hql, hqe⟩
+    split
+    · rename_i hcond
+      apply ih skip (tail _) hskip
+      rintro rfl
+      simp only [Bool.or_eq_true, List.contains_iff_mem, Bool.not_eq_true'] at hcond
+      rcases hcond with h | h
+      · exact hskip _ hql h
+      · rw [hqe] at h; cases h
+    · split
+      · rename_i op' hcell
+        obtain ⟨m1, m2, _, _⟩ := cell_some_some hcell
+        by_cases hoo : op' = op
+        · subst hoo
+          apply List.mem_append_left
+          have : (!cfg.exclude || insideAll cfg cy op') = true := by
+            cases hx : cfg.exclude
+            · rfl
+            · simpa using hex hx
+          rw [if_pos this]; exact List.mem_singleton.2 rfl
+        · apply List.mem_append_right
+          have hd := hwf.disjoint hop m1 (Ne.symm hoo)
+          apply ih _ (tail _)
+          · intro x hx hx'
+            rcases List.mem_append.1 hx' with h | h
+            · exact hd x hx h
+            · exact hskip x hx h
+          · rintro rfl; exact hd _ hql m2
+      · rename_i hcell
+        have hn := cell_some_none hcell _ hop rfl
+        apply ih _ (tail _)
+        · intro x hx hx'
+          rcases List.mem_cons.1 hx' with h | h
+          · subst h; exact hn hx
+          · exact hskip x hx h
+        · rintro rfl; exact hn hql
+      · rename_i hcell
+        have hn := cell_none hcell
+        obtain ⟨w1, _, w3, _⟩ := hwf.1 _ hop
+        have hn' : q0 ∉ op.loc := fun h => hn ⟨w1, w3 _ h⟩
+        apply ih _ (tail _)
+        · intro x hx hx'
+          rcases List.mem_cons.1 hx' with h | h
+          · subst h; exact hn' hx
+          · exact hskip x hx h
+        · rintro rfl; exact hn' hql
+
+/-- The qudits / cycles scanned, as a set. -/
+theorem mem_specCycles (c : Circ P α) (cfg : ItCfg) (cy : Nat) :
+    cy ∈ (if cfg.reverse then (List.range c.numCycles).reverse else List.range c.numCycles) ↔
+      cy < c.numCycles := by
+  split <;> simp
+
+theorem mem_specQuds (c : Circ P α) (cfg : ItCfg) (q : Nat) :
+    q ∈ (if cfg.reverse then (List.range c.radixes.length).reverse
+      else List.range c.radixes.length) ↔ q < c.radixes.length := by
+  split <;> simp
+
+/-- (B) restricted iteration yields exactly the operations of the grid that have a cell in the
+requested area; with `exclude`, only those with *every* cell on requested qudits and inside
+their intervals. -/
+theorem mem_specIter_iff {c : Circ P α} (hwf : c.WF) (cfg : ItCfg) (cy : Nat) (op : GOp P α) :
+    (cy, op) ∈ specIter c cfg ↔
+      (cy, op) ∈ c.ops ∧ (∃ q ∈ op.loc, eligible cfg cy q = true) ∧
+        (cfg.exclude = true → insideAll cfg cy op = true) := by
+  unfold specIter
+  simp only [List.mem_flatMap]
+  constructor
+  · rintro ⟨cy', _, h⟩
+    obtain ⟨h1, h2, ⟨q, _, h3, _, h5⟩, h6⟩ := mem_cycleScan_imp _ _ h
+    simp only at h1
+    subst h1
+    exact ⟨h2, ⟨q, h3, h5⟩, h6⟩
+  · rintro ⟨h1, ⟨q, h2, h3⟩, h4⟩
+    obtain ⟨w1, _, w3, _⟩ := hwf.1 _ h1
+    refine ⟨cy, (mem_specCycles c cfg cy).2 w1, ?_⟩
+    exact mem_cycleScan_of hwf h1 h4 _ [] ⟨q, (mem_specQuds c cfg q).2 (w3 _ h2), h2, h3⟩
+      (fun _ _ h => by cases h)
+
+/-- Within one cycle scan, yielded operations are pairwise disjoint. -/
+theorem cycleScan_pairwise {c : Circ P α} (hwf : c.WF) (cfg : ItCfg) (cy : Nat) :
+    ∀ (qs skip : List Nat), (cycleScan c cfg cy qs skip).Pairwise
+      (fun a b => ∀ q, q ∈ a.2.loc → q ∉ b.2.loc) := by
+  intro qs
+  induction qs with
+  | nil => intro skip; simp [cycleScan]
+  | cons q0 qs ih =>
+    intro skip
+    rw [cycleScan]
+    split
+    · exact ih _
+    · split
+      · rename_i op hcell
+        obtain ⟨m1, m2, _, _⟩ := cell_some_some hcell
+        refine List.pairwise_append.2 ⟨?_, ih _, ?_⟩
+        · split <;> simp
+        · intro a ha b hb
+          have ha' : a = (cy, op) := by
+            split at ha
+            · exact List.mem_singleton.1 ha
+            · cases ha
+          subst ha'
+          obtain ⟨b1, b2, ⟨q', _, b3, b4, _⟩, _⟩ := mem_cycleScan_imp _ _ hb
+          obtain ⟨bc, bop⟩ := b
+          simp only at b1 b3
+          subst b1
+          apply hwf.disjoint m1 b2
+          rintro rfl
+          exact b4 (List.mem_append_left _ b3)
+      · exact ih _
+      · exact ih _
+
+/-- No two yielded operations of the same cycle share a qudit. -/
+theorem specIter_pairwise_disjoint {c : Circ P α} (hwf : c.WF) (cfg : ItCfg) :
+    (specIter c cfg).Pairwise (fun a b => a.1 = b.1 → ∀ q, q ∈ a.2.loc → q ∉ b.2.loc) := by
+  unfold specIter
+  refine List.pairwise_flatMap.2 ⟨fun cy _ => ?_, ?_⟩
+  · refine List.Pairwise.imp ?_ (cycleScan_pairwise hwf cfg cy _ _)
+    intro a b h _; exact h
+  · have hnd : (if cfg.reverse then (List.range c.numCycles).reverse
+        else List.range c.numCycles).Nodup := by
+      split
+      · exact List.nodup_reverse.2 List.nodup_range
+      · exact List.nodup_range
+    refine hnd.imp ?_
+    intro cy1 cy2 hne x hx y hy hxy
+    have h1 := (mem_cycleScan_imp _ _ hx).1
+    have h2 := (mem_cycleScan_imp _ _ hy).1
+    exact absurd (h1.symm.trans (hxy.trans h2)) hne
+
+/-- Every element of `specIter` is an operation of the grid. -/
+theorem specIter_subset {c : Circ P α} (cfg : ItCfg) {e : Nat × GOp P α}
+    (h : e ∈ specIter c cfg) : e ∈ c.ops := by
+  unfold specIter at h
+  obtain ⟨cy, _, h⟩ := List.mem_flatMap.1 h
+  exact (mem_cycleScan_imp _ _ h).2.1
+
+/-- No operation occurrence is yielded twice. -/
+theorem specIter_nodup {c : Circ P α} (hwf : c.WF) (cfg : ItCfg) : (specIter c cfg).Nodup := by
+  refine (specIter_pairwise_disjoint hwf cfg).imp_of_mem ?_
+  intro a b ha _ h hab
+  subst hab
+  obtain ⟨_, w2, _, _⟩ := hwf.1 _ (specIter_subset cfg ha)
+  cases hl : a.2.loc with
+  | nil => exact w2 hl
+  | cons q _ => exact h rfl q (by simp [hl]) (by simp [hl])
+
+theorem Circ.WF.nodup {c : Circ P α} (hwf : c.WF) : c.ops.Nodup := by
+  refine hwf.2.imp_of_mem ?_
+  intro a b ha _ h hab
+  subst hab
+  obtain ⟨_, w2, _, _⟩ := hwf.1 _ ha
+  cases hl : a.2.loc with
+  | nil => exact w2 hl
+  | cons q _ => exact h rfl q (by simp [hl]) (by simp [hl])
+
+/-- The documented predicate: some cell of the operation is in the requested area and, with
+`exclude`, every cell is on requested qudits and inside their intervals. -/
+def inArea (cfg : ItCfg) (e : Nat × GOp P α) : Bool :=
+  e.2.loc.any (fun q => eligible cfg e.1 q) && (!cfg.exclude || insideAll cfg e.1 e.2)
+
+/-- Restricted iteration = the operations of the grid filtered by `inArea`, each exactly
+once. -/
+theorem specIter_perm_filter {c : Circ P α} (hwf : c.WF) (cfg : ItCfg) :
+    (specIter c cfg).Perm (c.ops.filter (inArea cfg)) := by
+  refine (List.perm_ext_iff_of_nodup (specIter_nodup hwf cfg) (hwf.nodup.filter _)).2 ?_
+  rintro ⟨cy, op⟩
+  rw [mem_specIter_iff hwf, List.mem_filter]
+  simp only [inArea, Bool.and_eq_true, List.any_eq_true, Bool.or_eq_true, Bool.not_eq_true']
+  constructor
+  · rintro ⟨h1, h2, h3⟩
+    refine ⟨h1, h2, ?_⟩
+    cases hx : cfg.exclude
+    · exact .inl rfl
+    · exact .inr (h3 hx)
+  · rintro ⟨h1, h2, h3⟩
+    refine ⟨h1, h2, fun hx => ?_⟩
+    rcases h3 with h | h
+    · rw [hx] at h; cases h
+    · exact h
+
+/-! ### (C) order of the cycles -/
+
+theorem specIter_cycles_sorted (c : Circ P α) (cfg : ItCfg) :
+    (specIter c cfg).Pairwise (fun a b => if cfg.reverse then b.1 ≤ a.1 else a.1 ≤ b.1) := by
+  unfold specIter
+  refine List.pairwise_flatMap.2 ⟨fun cy _ => ?_, ?_⟩
+  · refine List.Pairwise.imp_of_mem (R := fun _ _ => True) ?_ (List.pairwise_of_forall (fun _ _ => trivial))
+    intro a b ha hb _
+    rw [(mem_cycleScan_imp _ _ ha).1, (mem_cycleScan_imp _ _ hb).1]
+    split <;> exact Nat.le_refl _
+  · cases hr : cfg.reverse
+    · simp only [Bool.false_eq_true, if_false]
+      refine List.pairwise_lt_range.imp ?_
+      intro cy1 cy2 hlt x hx y hy
+      rw [(mem_cycleScan_imp _ _ hx).1, (mem_cycleScan_imp _ _ hy).1]
+      exact Nat.le_of_lt hlt
+    · simp only [if_true]
+      refine List.pairwise_reverse.2 (List.pairwise_lt_range.imp ?_)
+      intro cy1 cy2 hlt x hx y hy
+      rw [(mem_cycleScan_imp _ _ hx).1, (mem_cycleScan_imp _ _ hy).1]
+      exact Nat.le_of_lt hlt
+
+/-- forward: cycles are non-decreasing. -/
+theorem specIter_cycles_sorted_fwd (c : Circ P α) (cfg : ItCfg) (h : cfg.reverse = false) :
+    ((specIter c cfg).map (·.1)).Pairwise (· ≤ ·) := by
+  rw [List.pairwise_map]
+  simpa [h] using specIter_cycles_sorted c cfg
+
+/-- reverse: cycles are non-increasing. -/
+theorem specIter_cycles_sorted_rev (c : Circ P α) (cfg : ItCfg) (h : cfg.reverse = true) :
+    ((specIter c cfg).map (·.1)).Pairwise (· ≥ ·) := by
+  rw [List.pairwise_map]
+  simpa [h] using specIter_cycles_sorted c cfg
+
+/-! ### (A) the state machine, direction-generic form -/
+
+/-- The loop condition of `increment_iter` / `decrement_iter`. -/
+def passCond (cfg : ItCfg) (s : ItState) : Bool :=
+  s.skip.contains s.qudit || !inQudits cfg s.qudit
+    || (!inRegion cfg s.cycle s.qudit &&
+        (if cfg.reverse then decide (s.cycle ≥ (cfg.minCycle : Int))
+         else decide (s.cycle ≤ (cfg.maxCycle : Int))))
+
+/-- The loop body of `increment_iter` / `decrement_iter`. -/
+def advance (cfg : ItCfg) (s : ItState) : ItState :=
+  if cfg.reverse then
+    (if s.qudit - 1 < (cfg.minQ : Int) then { cycle := s.cycle - 1, qudit := cfg.maxQ, skip := [] }
+     else { s with qudit := s.qudit - 1 })
+  else
+    (if s.qudit + 1 > (cfg.maxQ : Int) then { cycle := s.cycle + 1, qudit := cfg.minQ, skip := [] }
+     else { s with qudit := s.qudit + 1 })
+
+/-- `step` without the StopIteration test. -/
+def stepIter (cfg : ItCfg) (fuel : Nat) (s : ItState) : Option ItState :=
+  if cfg.reverse then decrementIter cfg fuel s else incrementIter cfg fuel s
+
+theorem stepIter_succ (cfg : ItCfg) (fuel : Nat) (s : ItState) :
+    stepIter cfg (fuel + 1) s =
+      if passCond cfg s then stepIter cfg fuel (advance cfg s) else some s := by
+  unfold stepIter passCond advance
+  cases hr : cfg.reverse
+  · simp only [Bool.false_eq_true, if_false]
+    rw [incrementIter]
+    split <;> rename_i h
+    · split <;> rename_i h2 <;> simp only [h2, if_true, if_false]
+    · rfl
+  · simp only [if_true]
+    rw [decrementIter]
+    split <;> rename_i h
+    · split <;> rename_i h2 <;> simp only [h2, if_true, if_false]
+    · rfl
+
+/-- The body of `__next__` after `step` has positioned the pointer. -/
+def visitBody (c : Circ P α) (cfg : ItCfg) (inner fuel : Nat) (s : ItState) : NextRes (GOp P α) :=
+  if ptLt (s.cycle, s.qudit) cfg.start || ptLt cfg.stop (s.cycle, s.qudit) then .stop
+  else
+    match c.cell s.cycle.toNat s.qudit.toNat with
+    | none => .err .indexError
+    | some none => gridNext c cfg inner fuel { s with skip := s.qudit :: s.skip }
+    | some (some op) =>
+      if cfg.exclude && !(op.loc.all (fun q => cfg.qudits.contains q)) then
+        gridNext c cfg inner fuel { s with skip := op.loc.map (fun (q : Nat) => (q : Int)) ++ s.skip }
+      else if cfg.exclude && !(op.loc.all (fun q => overlapsPt cfg s.cycle q)) then
+        gridNext c cfg inner fuel { s with skip := op.loc.map (fun (q : Nat) => (q : Int)) ++ s.skip }
+      else .yield s.cycle.toNat op { s with skip := op.loc.map (fun (q : Nat) => (q : Int)) ++ s.skip }
+
+def nextFrom (c : Circ P α) (cfg : ItCfg) (inner fuel : Nat) : Option ItState → NextRes (GOp P α)
+  | none => .fuel
+  | some s => visitBody c cfg inner fuel s
+
+theorem gridNext_succ (c : Circ P α) (cfg : ItCfg) (inner fuel : Nat) (s : ItState) :
+    gridNext c cfg inner (fuel + 1) s = nextFrom c cfg inner fuel (stepIter cfg inner s) := by
+  rw [gridNext]
+  unfold stepIter
+  cases h : (if cfg.reverse = true then decrementIter cfg inner s else incrementIter cfg inner s) with
+  | none => rfl
+  | some s' => rfl
+
+/-- What `list(...)` does with the result of one `__next__`. -/
+def finish (c : Circ P α) (cfg : ItCfg) (inner fC : Nat) :
+    NextRes (GOp P α) → Except Err (Option (List (Nat × GOp P α)))
+  | .stop => .ok (some [])
+  | .fuel => .ok none
+  | .err e => .error e
+  | .yield cy op s' => do
+    match ← gridCollect c cfg inner fC s' with
+    | none => pure none
+    | some tl => pure (some ((cy, op) :: tl))
+
+theorem gridCollect_succ (c : Circ P α) (cfg : ItCfg) (inner fuel : Nat) (s : ItState) :
+    gridCollect c cfg inner (fuel + 1) s
+      = finish c cfg inner fuel (gridNext c cfg inner (fuel + 1) s) := by
+  rw [gridCollect]
+  cases gridNext c cfg inner (fuel + 1) s <;> rfl
+
+/-- `list(...)` continued from the result of a (partial) `step`. -/
+def run (c : Circ P α) (cfg : ItCfg) (inner fN fC : Nat) (r : Option ItState) :
+    Except Err (Option (List (Nat × GOp P α))) :=
+  finish c cfg inner fC (nextFrom c cfg inner fN r)
+
+theorem gridCollect_eq_run (c : Circ P α) (cfg : ItCfg) (inner fuel : Nat) (s : ItState) :
+    gridCollect c cfg inner (fuel + 1) s = run c cfg inner fuel fuel (stepIter cfg inner s) := by
+  rw [gridCollect_succ, gridNext_succ]; rfl
+
+theorem run_pass {c : Circ P α} {cfg : ItCfg} {inner fN fC k : Nat} {s : ItState}
+    (h : passCond cfg s = true) :
+    run c cfg inner fN fC (stepIter cfg (k + 1) s)
+      = run c cfg inner fN fC (stepIter cfg k (advance cfg s)) := by
+  rw [stepIter_succ, if_pos h]
+
+theorem run_visit {c : Circ P α} {cfg : ItCfg} {inner fN fC k : Nat} {s : ItState}
+    (h : passCond cfg s = false) :
+    run c cfg inner fN fC (stepIter cfg (k + 1) s)
+      = finish c cfg inner fC (visitBody c cfg inner fN s) := by
+  rw [stepIter_succ, h]; rfl
 
 end BqVerif.CircSim
